@@ -211,8 +211,8 @@ theorem stdinInv_run (ins0 : List InItem) (s : S) (evs : List Ev) (h : StdinInv 
     | act a => exact stdinInv_step ins0 s a h
     | env e => exact stdinInv_env ins0 s e h
 
-theorem stdinInv_init (hi ht w p e : Bool) (o er : List Chunk) (ins : List InItem) (ho sf : Bool) (n : Nat) :
-    StdinInv ins (S.init hi ht w p e o er ins ho sf n) := by
+theorem stdinInv_init (hi ht w p e : Bool) (o er : List Chunk) (ins : List InItem) (ho sf : Bool) (n : Nat) (asy : Bool) :
+    StdinInv ins (S.init hi ht w p e o er ins ho sf n asy) := by
   refine ⟨?_, ?_, ?_, ?_, ?_, ?_, ?_⟩ <;> simp [S.init, S.fwd, S.inPending]
 
 end Inv
